@@ -1,7 +1,8 @@
 (* RunVars.v — executable entry points for C04 (and the variables half of C09): a generated
    program, one operation, reference assignments and what `to_value(Op::build_query(vars)).variables`
    gave for the Variables value deserialised from each. *)
-From GC Require Import Base Rust Json TypeExpr Schema Query Attrs Codegen Serde RunSerde RunGen Conform VarSpec.
+From GC Require Import Base Rust Json TypeExpr Heck Naming Schema Query Attrs Codegen Serde RunSerde RunGen Conform Compose VarSpec VarCert.
+From GC.Gen Require Import Keywords.
 
 Record vvec := mkVV { vv_label : string; vv_input : json; vv_obs : sobs }.
 Record vcase := mkVC { vc_g : gcase; vc_op : string; vc_vectors : list vvec }.
@@ -89,3 +90,35 @@ Definition in_enum_other (c : vcase) : bool :=
                         | _ => false end) (vc_vectors c)
   end.
 Definition known_enum_other (c : vcase) : bool := negb (in_enum_other c).
+
+(* ---------- certificate (VarCert.variables_valid): for operations whose items pass `vars_ok`, every
+   clean value of Variables serialises to a valid variables object; evaluated per case, and its
+   prediction compared with the compiled crate *)
+Definition tmap_of (c : vcase) (s : aschema) (items : list ritem) : list (string * string) :=
+  let o := g_opts (vc_g c) in
+  let cands :=
+    map (fun n => (if mem_str n default_scalars then n else norm o n, n)) (a_scalars s) ++
+    map (fun e => (norm o (fst e), fst e)) (a_enums s) ++
+    map (fun i => (norm_field_type o (ai_name i), ai_name i)) (a_inputs s) in
+  filter (fun p => mem_str (snd p) ["String"] ||
+                   match find_item (fst p) items with Some _ => true | None => false end) cands.
+
+Definition var_certified (c : vcase) : bool :=
+  match model_schema c, model_items c with
+  | Some s, Some items => vars_ok s items (tmap_of c s items) (op_vars c)
+  | _, _ => false
+  end.
+
+Definition corr_varcert (c : vcase) : bool :=
+  negb (var_certified c) ||
+  match model_schema c, model_items c with
+  | Some s, Some items =>
+      forallb (fun vec =>
+        match deser henv FUEL items (RNamed "Variables") (vv_input vec), vv_obs vec with
+        | Some v, SOk out => negb (clean v) || valid_variables s (op_vars c) out
+        | _, _ => true
+        end) (vc_vectors c)
+  | _, _ => true
+  end.
+
+Definition info_var_uncertified (c : vcase) : bool := var_certified c.
